@@ -198,9 +198,20 @@ C10Expected(base, other, tc, oc, right) ==
    those free base inputs with each other. *)
 C10Unspecified(a) ==
   a.right /\ \E x \in SeqSet(a.oc) : a.other.g[x].t = "INPUT" /\ Occ(a.oc, x) > 1
+(* Calls outside the quantifier of C10 (the documentation makes the library refuse them): connectors that
+   name no gate, lists of different length, an attached-side connector of a left connection that is no input
+   of the attached circuit, a base-side connector of a right connection that is no base input.  Should such a
+   call return normally, C10 says nothing about the result (C02 still judges its well-formedness). *)
+C10OutsideQuantifier(pre, a) ==
+  \/ Len(a.tc) # Len(a.oc)
+  \/ ~(SeqSet(a.tc) \subseteq Labels(pre))
+  \/ ~(SeqSet(a.oc) \subseteq DOMAIN a.other.g)
+  \/ (~a.right /\ \E x \in SeqSet(a.oc) : a.other.g[x].t # "INPUT")
+  \/ (a.right /\ \E x \in SeqSet(a.tc) : pre.g[x].t # "INPUT")
 C10StepFails(c, l) ==
   LET st == c.steps[l]  a == st.act  pre == HPre(c, l)
   IN IF a.a # "connect" \/ st.ret # "ok" \/ ~WellFormed(pre) THEN {}
+     ELSE IF C10OutsideQuantifier(pre, a) THEN {}
      ELSE IF C10Unspecified(a) THEN {}
      ELSE LET other == ActOther(a)
               post == st.post
